@@ -29,15 +29,29 @@ ASSUMPTIONS = [
     "bit-identical is decided on canonical digests of values, dtypes, index, column names and spec state (mc/canon.py)",
 ]
 
-FORMULA_SRC = {"F1": "center(a) + A", "F2": "a:A + scale(b)", "F3": "y ~ a | A", "F4": "bs(a, df=3) + C(A, contr.sum)"}
+FORMULA_SRC = {"F1": "center(a) + A", "F2": "a:A + scale(b)", "F3": "y ~ a | A", "F4": "bs(a, df=3) + C(A, contr.sum)",
+               "F5": "0 + A:B + center(b)"}
+
+
+def _plain_center(x):
+    return x - 1.0
+
+
+def _plain_scale(x):
+    return x * 2.0
+
+
+# evaluation contexts: the default one, and one in which the names of two built-in *stateful* transforms are bound to plain functions
+CONTEXTS = {"ctx-default": {}, "ctx-shadow": {"center": _plain_center, "scale": _plain_scale}}
 
 
 def make_world():
     from formulaic import Formula, ModelSpec
     d1 = pd.DataFrame({"y": [1.0, 2.0, 3.0, 4.0], "a": [1.0, 2.0, 4.0, 7.0], "b": [0.5, 1.5, -2.0, 3.0],
-                       "A": pd.Series(["x", "y", "x", "z"], dtype=object)})
+                       "A": pd.Series(["x", "y", "x", "z"], dtype=object), "B": pd.Series(["u", "v", "v", "u"], dtype=object)})
     d2 = pd.DataFrame({"y": [5.0, 6.0, 7.0, 8.0, 9.0], "a": [10.0, np.nan, 30.0, 50.0, 20.0], "b": [5.0, 7.0, 9.0, 11.0, 2.0],
-                       "A": pd.Series(["y", "y", "z", None, "x"], dtype=object)}, index=[3, 1, 4, 1, 5])
+                       "A": pd.Series(["y", "y", "z", None, "x"], dtype=object), "B": pd.Series(["v", "u", "u", "v", "w"], dtype=object)},
+                      index=[3, 1, 4, 1, 5])
     w = {"D1": d1, "D2": d2}
     for k, src in FORMULA_SRC.items():
         w[k] = Formula(src)
@@ -108,7 +122,9 @@ def do_event(w, ev, fresh=False):
         warnings.simplefilter("ignore")
         try:
             if kind == "mm":
-                return model_matrix(w[ev[1]], w[ev[2]])
+                return model_matrix(w[ev[1]], w[ev[2]], context={})
+            if kind == "mmctx":
+                return model_matrix(FORMULA_SRC[ev[1]], w[ev[2]], context=CONTEXTS[ev[3]])
             if kind == "fmm":
                 return w[ev[1]].get_model_matrix(w[ev[2]])
             if kind == "umm":
@@ -157,6 +173,10 @@ def menu(w, ctx):
         for d in ("D1", "D2"):
             for entry in ctx["entries"]:
                 evs.append((entry, f, d))
+    for f in ctx.get("ctx_formulas", []):
+        for d in ("D1", "D2"):
+            for cn in CONTEXTS:
+                evs.append(("mmctx", f, d, cn))
     for expr, s in list(w["specs"].items()):
         for d in ("D1", "D2"):
             evs.append(("reuse", expr, d))
@@ -209,7 +229,7 @@ def drv_hist(c, ctx, col):
         hist.append(ev)
         key = "history %s" % (hist,)
         r = do_event(w, ev)
-        if ev[0] in ("mm", "fmm", "umm") and not isinstance(r, Exception):
+        if ev[0] in ("mm", "fmm", "umm", "mmctx") and not isinstance(r, Exception):
             expr = ("spec_of", ev)
             if expr not in w["specs"]:
                 w["specs"][expr] = r.model_spec
@@ -320,6 +340,79 @@ def drv_perm(c, ctx, col):
 
 
 # ---------------------------------------------------------------------------
+# the hash-order seam: iteration order of ANY set / dict of the library's hashable objects
+
+HASH_CLASSES = {
+    "Factor": ("formulaic.parser.types.factor", "Factor", lambda o: o.expr),
+    "ScopedFactor": ("formulaic.materializers.types.scoped_factor", "ScopedFactor", lambda o: repr(o)),
+    "ScopedTerm": ("formulaic.materializers.types.scoped_term", "ScopedTerm", lambda o: tuple(sorted(repr(f) for f in o.factors))),
+}
+HASH_FORMULAS = ["A:B", "0 + A:B", "a + A:B", "a:A + scale(b)", "center(a) + A + B + A:B", "0 + A:B + center(b)", "y ~ a + A:B | B:A", "A:B:a + b"]
+
+
+def drv_hashorder(c, ctx, col):
+    """The interpreter's hash seed decides the iteration order of sets of Factor / ScopedFactor / ScopedTerm objects (their
+    hashes derive from str hashes).  CPython iterates a small set in ascending order of hash & mask, so replacing a class's
+    __hash__ by a harness-chosen rank makes EVERY iteration order of every set of such objects reachable.  All rank
+    assignments (all permutations for <= 5 distinct objects, otherwise all choices of the first three) are enumerated;
+    results must not change."""
+    import importlib
+    from formulaic import model_matrix
+    cname = c.pick(list(HASH_CLASSES))
+    src = c.pick(ctx["formulas"])
+    dname = c.pick(["D1", "D2"])
+    modname, clsname, keyfn = HASH_CLASSES[cname]
+    cls = getattr(importlib.import_module(modname), clsname)
+    orig = cls.__hash__
+    keys = []
+
+    def discover(self):
+        k = keyfn(self)
+        if k not in keys:
+            keys.append(k)
+        return orig(self)
+
+    cls.__hash__ = discover
+    try:
+        with warnings.catch_warnings():
+            warnings.simplefilter("ignore")
+            base = _safe(lambda: model_matrix(src, make_world()[dname], context={}))
+    finally:
+        cls.__hash__ = orig
+    n = len(keys)
+    if n < 2:
+        raise Skip()
+    order = list(range(n))
+    depth = n if n <= 5 else 3
+    chosen = []
+    for _ in range(depth):
+        chosen.append(order.pop(c.choose(len(order))))
+    perm = chosen + order
+    rank = {keys[i]: r for r, i in enumerate(perm)}
+
+    def patched(self):
+        return rank.get(keyfn(self), 1000)
+
+    cls.__hash__ = patched
+    try:
+        with warnings.catch_warnings():
+            warnings.simplefilter("ignore")
+            got = _safe(lambda: model_matrix(src, make_world()[dname], context={}))
+    finally:
+        cls.__hash__ = orig
+    key = "hash-order class=%s %r frame=%s ranks=%s" % (cname, src, dname, perm)
+    if perm != sorted(perm):
+        col.interesting()
+    a, b = result_digest(got), result_digest(base)
+    if a != b:
+        col.violation(key, {"class": cname, "formula": src, "frame": dname, "objects": [repr(k) for k in keys], "hash_ranks": perm,
+                            "got": a, "baseline": b,
+                            "note": "another iteration order of a set of %s objects (as another PYTHONHASHSEED would give) changes the result" % cname},
+                      sig="hash-order-dependent-result:" + cname)
+    col.sample({"class": cname, "formula": src, "frame": dname, "objects": len(keys), "ranks": perm})
+
+
+# ---------------------------------------------------------------------------
 # separate-process hash seeds (cross-check of the seam)
 
 PROBE = r"""
@@ -331,7 +424,7 @@ warnings.simplefilter('ignore')
 from props import c18
 from formulaic import model_matrix
 out = {}
-for src in c18.PERM_FORMULAS:
+for src in c18.PERM_FORMULAS + c18.HASH_FORMULAS:
     for d in ('D1', 'D2'):
         for output in ('pandas', 'sparse'):
             w = c18.make_world()
@@ -364,6 +457,62 @@ def drv_seeds(c, ctx, col):
     col.sample({"PYTHONHASHSEED": seed, "cases": len(base)})
 
 
+# ---------------------------------------------------------------------------
+# histories in pristine interpreters: module-level state (caches, default-argument dictionaries, registries) that leaks
+# between calls cannot be seen against an in-process "fresh world", so every history is also run in its own interpreter and
+# each event's result is compared with the same event run alone in its own interpreter.
+
+PROC_EVENTS = [("F1", "D1", "ctx-default"), ("F1", "D1", "ctx-shadow"), ("F1", "D2", "ctx-default"), ("F2", "D1", "ctx-default"),
+               ("F2", "D2", "ctx-shadow"), ("F5", "D2", "ctx-default"), ("F4", "D1", "ctx-default"), ("F3", "D1", "ctx-default")]
+
+PROBE_HIST = r"""
+import sys, json, warnings
+sys.path.insert(0, %r)
+repo = %r
+if repo: sys.path.insert(0, repo)
+warnings.simplefilter('ignore')
+from props import c18
+hist = json.loads(%r)
+out = []
+for ev in hist:
+    w = c18.make_world()
+    out.append(c18.result_digest(c18.do_event(w, ('mmctx',) + tuple(ev))))
+print(json.dumps(out))
+"""
+
+
+def run_hist_probe(hist):
+    verif = os.path.dirname(os.path.dirname(os.path.abspath(__file__)))
+    env = dict(os.environ, PYTHONHASHSEED="0")
+    p = subprocess.run([sys.executable, "-c", PROBE_HIST % (verif, os.environ.get("VERIF_REPO", ""), json.dumps(hist))],
+                       env=env, capture_output=True, text=True, timeout=600)
+    if p.returncode != 0:
+        raise RuntimeError("probe failed: " + p.stderr[-2000:])
+    return json.loads(p.stdout.strip().splitlines()[-1])
+
+
+def proc_baseline():
+    from concurrent.futures import ThreadPoolExecutor
+    with ThreadPoolExecutor(8) as ex:
+        res = list(ex.map(lambda e: run_hist_probe([e])[0], PROC_EVENTS))
+    return {e: r for e, r in zip(PROC_EVENTS, res)}
+
+
+def drv_proc_hist(c, ctx, col):
+    n = 2 + c.upto(ctx["D"] - 2)
+    hist = [c.pick(PROC_EVENTS) for _ in range(n)]
+    got = run_hist_probe(hist)
+    col.interesting()
+    for i, (ev, g) in enumerate(zip(hist, got)):
+        want = ctx["alone"][ev]
+        if g != want:
+            col.violation("process-history %s" % (hist,), {"history": hist, "step": i, "event": ev, "got": g, "alone_in_fresh_interpreter": want,
+                                                         "formulas": FORMULA_SRC, "note": "the same call gives another result when other calls ran earlier in the same interpreter"},
+                          sig="interpreter-history-dependent-result")
+            return
+    col.sample({"history": hist})
+
+
 def subchecks(tier, seed):
     quick = tier == "quick"
     seeds = [1, 2, 3] if quick else list(range(1, 16))
@@ -374,6 +523,14 @@ def subchecks(tier, seed):
             shard_depth=2, bounds={"max_events": 2 if quick else 3, "formulas": FORMULA_SRC, "frames": 2}),
         Sub("histories-depth3-slice", drv_hist, {"D": 3, "formulas": ["F1", "F3"] if quick else ["F1", "F2", "F3", "F4"], "entries": ["umm"] if quick else ["mm", "umm"]},
             shard_depth=2, bounds={"max_events": 3, "formulas": ["F1", "F3"] if quick else list(FORMULA_SRC), "entries": "shared unfitted specs (+model_matrix in thorough)"}),
+        Sub("histories-contexts", drv_hist, {"D": 2 if quick else 3, "formulas": [], "ctx_formulas": ["F1", "F2"], "entries": []},
+            shard_depth=2, bounds={"max_events": 2 if quick else 3, "events": "builds of F1/F2 under the default context and under a context binding "
+                                   "'center'/'scale' to plain functions, reuse of every produced spec, update, pickle, subset"}),
+        Sub("hash-orders", drv_hashorder, {"formulas": HASH_FORMULAS[:5] if quick else HASH_FORMULAS}, shard_depth=3,
+            bounds={"classes": list(HASH_CLASSES), "formulas": HASH_FORMULAS[:5] if quick else HASH_FORMULAS,
+                    "orders": "all permutations of <= 5 distinct objects, otherwise every choice of the first three"}),
         Sub("factor-order", drv_perm, {}, shard_depth=3, bounds={"formulas": PERM_FORMULAS, "permutations": "all (<= 5! per build)"}),
+        Sub("process-histories", drv_proc_hist, {"D": 2 if quick else 3, "alone": proc_baseline()}, shard_depth=2,
+            bounds={"events": [list(e) for e in PROC_EVENTS], "history_length": "2" if quick else "2..3", "each history in its own interpreter": True}),
         Sub("hash-seeds", drv_seeds, {"seeds": seeds, "baseline": run_probe(0)}, shard_depth=1, bounds={"PYTHONHASHSEED": seeds, "baseline": 0}),
     ]
